@@ -162,13 +162,17 @@ theorem listReplace_ok (f : Forest) (m : Meta) (its : Items) (index : Int) (pos 
     exact storeKey_local m.id _ _ _ (by rw [okSub_iff_okAt]; exact hv.1)
   · exact detachFrom_ok .list (getKey_ok hits hold)
 
-theorem listInsert_ok (f : Forest) (m : Meta) (index : Int) (len : Nat) (ve : VE) (hf : f.ok = true) :
-    (listInsert Cfg.patched f m index len ve).ok = true := by
+theorem listInsert_ok (f : Forest) (m : Meta) (its : Items) (index : Int) (len : Nat) (ve : VE) (hf : f.ok = true) :
+    (listInsert Cfg.patched f m its index len ve).ok = true := by
   unfold listInsert
-  have hv := evalVE_spec Cfg.patched none ve f (some m.id) false m.part (m.path ++ [Key.i index]) hf
-  apply mapAt_ok _ m.id _ _ (ok_of_subset hf hv.2)
   simp only [Cfg.patched, if_true]
-  exact insert_local m.id _ _ _ (by rw [okSub_iff_okAt]; exact hv.1)
+  split
+  · next own _ =>
+    apply mapAt_ok _ m.id _ _ (ok_of_subset hf (fun x hx => hx))
+    exact insert_local m.id _ _ _ (by rw [okSub_iff_okAt]; exact clone_okAt _ _ _ _ _ _)
+  · have hv := evalVE_spec Cfg.patched none ve f (some m.id) false m.part (m.path ++ [Key.i index]) hf
+    apply mapAt_ok _ m.id _ _ (ok_of_subset hf hv.2)
+    exact insert_local m.id _ _ _ (by rw [okSub_iff_okAt]; exact hv.1)
 
 theorem listAppend_ok (f : Forest) (m : Meta) (index : Int) (ve : VE) (hf : f.ok = true) :
     (listAppend Cfg.patched f m index ve).ok = true := by
@@ -181,7 +185,7 @@ theorem rawSetList_cases (cfg : Cfg) (f : Forest) (m : Meta) (its : Items) (key 
     ∀ r, rawSetList cfg f m its key ins ve = .ok r →
       r = (f, false) ∨
       (∃ (index : Int) (pos : Nat) (old : Tree), getKey its (Key.i pos) = some old ∧ r = (listReplace cfg f m index pos old ve, true)) ∨
-      (∃ index len, r = (listInsert cfg f m index len ve, true)) ∨
+      (∃ index len, r = (listInsert cfg f m its index len ve, true)) ∨
       (∃ index, r = (listAppend cfg f m index ve, true)) := by
   intro r hr
   unfold rawSetList at hr
@@ -214,7 +218,7 @@ theorem rawSetList_ok (f : Forest) (m : Meta) (its : Items) (key : Int) (ins : B
   rcases rawSetList_cases Cfg.patched f m its key ins ve r hr with rfl | ⟨i, p, old, hold, rfl⟩ | ⟨i, l, rfl⟩ | ⟨i, rfl⟩
   · exact hf
   · exact listReplace_ok f m its i p old ve hf hits hold
-  · exact listInsert_ok f m i l ve hf
+  · exact listInsert_ok f m its i l ve hf
   · exact listAppend_ok f m i ve hf
 
 theorem dictStore_ok (f : Forest) (m : Meta) (its : Items) (key : Key) (ve : VE)
